@@ -35,9 +35,11 @@ pub struct Opts {
     pub crlf: bool,
 }
 
+/// a split point after every second character, but never directly after a space (words of the Unicode separator
+/// may contain spaces; a slice ending in a space is allowed by C01 only for force-breaking)
 pub fn every2(word: &str) -> Vec<usize> {
-    let idx: Vec<usize> = word.char_indices().map(|(i, _)| i).collect();
-    idx.iter().enumerate().filter(|(k, _)| *k > 0 && k % 2 == 0).map(|(_, i)| *i).collect()
+    let cs: Vec<(usize, char)> = word.char_indices().collect();
+    (1..cs.len()).filter(|k| k % 2 == 0 && cs[k - 1].1 != ' ').map(|k| cs[k].0).collect()
 }
 
 impl Opts {
@@ -104,7 +106,7 @@ pub fn seps() -> Vec<Sep> {
     if cfg!(feature = "full") { vec![Sep::Ascii, Sep::Unicode] } else { vec![Sep::Ascii] }
 }
 
-pub const INDENT_PAIRS: &[(&str, &str)] = &[("", ""), ("> ", ""), ("", "  "), ("* ", "    "), ("你", "-"), ("      ", " ")];
+pub const INDENT_PAIRS: &[(&str, &str)] = &[("", ""), ("> ", ""), ("", "  "), ("* ", "    "), ("你 ", "éé"), ("      ", " "), ("\x1b[1m", "\u{200b}"), ("-", "你")];
 
 /// option grid (without width); `rich` adds the custom splitter and more indent pairs
 pub fn option_grid(rich: bool) -> Vec<Opts> {
